@@ -1060,6 +1060,21 @@ def _eq(val1, val2) -> float:
             return 0.0
     except TypeError:
         pass
+    return _eq_distance(val1, val2)
+
+
+def _eq_distance(val1, val2) -> float:
+    """How far two values, which are known to be unequal, are from being equal.
+
+    Does not compare the values, i.e., does not call any of their operators.
+
+    Args:
+        val1: the first value
+        val2: the second value
+
+    Returns:
+        a positive distance
+    """
     if is_numeric(val1) and is_numeric(val2):
         return _numeric_distance(val1, val2)
     if is_string(val1) and is_string(val2):
@@ -1096,6 +1111,21 @@ def _lt(val1, val2) -> float:
     """
     if val1 < val2:
         return 0.0
+    return _lt_distance(val1, val2)
+
+
+def _lt_distance(val1, val2) -> float:
+    """How far ``val1 < val2``, which is known not to hold, is from holding.
+
+    Does not compare the values, i.e., does not call any of their operators.
+
+    Args:
+        val1: the first value
+        val2: the second value
+
+    Returns:
+        a positive distance
+    """
     if is_numeric(val1) and is_numeric(val2):
         return _numeric_distance(val1, val2) + 1.0
     if is_string(val1) and is_string(val2):
@@ -1117,6 +1147,21 @@ def _le(val1, val2) -> float:
     """
     if val1 <= val2:
         return 0.0
+    return _le_distance(val1, val2)
+
+
+def _le_distance(val1, val2) -> float:
+    """How far ``val1 <= val2``, which is known not to hold, is from holding.
+
+    Does not compare the values, i.e., does not call any of their operators.
+
+    Args:
+        val1: the first value
+        val2: the second value
+
+    Returns:
+        a positive distance
+    """
     if is_numeric(val1) and is_numeric(val2):
         return _numeric_distance(val1, val2)
     if is_string(val1) and is_string(val2):
@@ -1342,31 +1387,42 @@ class ExecutionTracer(AbstractExecutionTracer):  # noqa: PLR0904
             value1 = tt.unwrap(value1)
             value2 = tt.unwrap(value2)
 
+            # Only the operator that the module under test is about to execute is
+            # evaluated, and only once: neither the inverse nor the reflected operator
+            # must be called on the operands, because they may be missing, may have side
+            # effects, and do not decide the branch (NaN and sets are not totally
+            # ordered). The distance of the branch not taken is derived from the values.
             match cmp_op:
                 case PynguinCompare.EQ:
-                    distance_true, distance_false = _eq(value1, value2), _neq(value1, value2)
+                    if value1 == value2:
+                        distance_true, distance_false = 0.0, 1.0
+                    else:
+                        distance_true, distance_false = _eq_distance(value1, value2), 0.0
                 case PynguinCompare.NE:
-                    distance_true, distance_false = _neq(value1, value2), _eq(value1, value2)
+                    if value1 != value2:
+                        distance_true, distance_false = 0.0, _eq_distance(value1, value2)
+                    else:
+                        distance_true, distance_false = 1.0, 0.0
                 case PynguinCompare.LT:
-                    distance_true, distance_false = (
-                        _lt(value1, value2),
-                        _le(value2, value1),
-                    )
+                    if value1 < value2:
+                        distance_true, distance_false = 0.0, _le_distance(value2, value1)
+                    else:
+                        distance_true, distance_false = _lt_distance(value1, value2), 0.0
                 case PynguinCompare.LE:
-                    distance_true, distance_false = (
-                        _le(value1, value2),
-                        _lt(value2, value1),
-                    )
+                    if value1 <= value2:
+                        distance_true, distance_false = 0.0, _lt_distance(value2, value1)
+                    else:
+                        distance_true, distance_false = _le_distance(value1, value2), 0.0
                 case PynguinCompare.GT:
-                    distance_true, distance_false = (
-                        _lt(value2, value1),
-                        _le(value1, value2),
-                    )
+                    if value1 > value2:
+                        distance_true, distance_false = 0.0, _le_distance(value1, value2)
+                    else:
+                        distance_true, distance_false = _lt_distance(value2, value1), 0.0
                 case PynguinCompare.GE:
-                    distance_true, distance_false = (
-                        _le(value2, value1),
-                        _lt(value1, value2),
-                    )
+                    if value1 >= value2:
+                        distance_true, distance_false = 0.0, _lt_distance(value1, value2)
+                    else:
+                        distance_true, distance_false = _le_distance(value2, value1), 0.0
                 case PynguinCompare.IN:
                     distance_true, distance_false = (
                         _in(value1, value2),
